@@ -95,6 +95,7 @@ type FCase struct {
 	//                                             every goroutine of the call is blocked then (parked operation, Acquire, done channel)
 	Cut       []int         `json:"cut"`       // ExtendedCopyGraph: FindPredecessors answers "none" for these nodes (they become roots
 	//                                             although other roots reach them: nested roots)
+	NilCb     string        `json:"nilcb"`     // "" (all callbacks set) or 5 bits: PreCopy PostCopy OnCopySkipped OnMounted MountFrom set
 	MapRoot   bool          `json:"maproot"`   // Copy gets an (identity) MapRoot: a prologue fault point
 	Mount     bool          `json:"mount"`     // the destination is a registry.Mounter and MountFrom is set (g, t, x)
 	Sched     bool          `json:"sched"`     // controlled schedule under testing/synctest
@@ -741,8 +742,20 @@ func runCall(c *FCase, g *dag.Graph, src, dst oras.Target, faults []Fault, preCa
 		}
 	}
 	gopts := oras.CopyGraphOptions{Concurrency: c.K, PreCopy: cb("pre"), PostCopy: cb("post"), OnCopySkipped: cb("skip")}
+	isSet := func(i int) bool { return len(c.NilCb) != 5 || c.NilCb[i] == '1' }
+	if !isSet(0) {
+		gopts.PreCopy = nil
+	}
+	if !isSet(1) {
+		gopts.PostCopy = nil
+	}
+	if !isSet(2) {
+		gopts.OnCopySkipped = nil
+	}
 	if c.Mount {
-		gopts.OnMounted = cb("mounted")
+		if isSet(3) {
+			gopts.OnMounted = cb("mounted")
+		}
 		gopts.MountFrom = func(_ context.Context, d ocispec.Descriptor) ([]string, error) {
 			n := f.node(d)
 			if f.hit("mountfrom", n, false) {
@@ -955,6 +968,9 @@ func fModelInput(c *FCase, g *dag.Graph, roots []int, d0 []int, toks []string, r
 	api := c.API
 	if c.Mount {
 		api += "m"
+	}
+	if len(c.NilCb) == 5 {
+		api += "/" + c.NilCb
 	}
 	return fmt.Sprintf("%d %d %s %s %s %s %s %s", len(g.Nodes), c.K, api, ints(roots), strings.Join(nodes, ";"), ints(d), tr, rp)
 }
@@ -1258,6 +1274,16 @@ func GenerateF(genseed uint64, stream string, thorough bool) *FCase {
 	c.Sched = stream == "sched" || stream == "schedshared"
 	if c.API != "r" && r.Chance(1, 4) {
 		c.Mount = true
+	}
+	if r.Chance(1, 4) {
+		// some callbacks are nil (their invocations are inserted by the model's elaboration)
+		bs := []byte("11111")
+		for i := 0; i < 4; i++ {
+			if r.Bool() {
+				bs[i] = '0'
+			}
+		}
+		c.NilCb = string(bs)
 	}
 
 	if c.API == "x" && r.Chance(1, 2) {
@@ -1597,8 +1623,8 @@ func DriveF(run *common.Run, b FBudget) {
 			fails++
 			run.OracleFail(id, sig, msg, rp)
 		}
-		desc := fmt.Sprintf("cut=%v cancelat=%d mounter=%v api=%s root=%d roots=%v K=%d %s->%s d0=%v faults=%v precancel=%v slow=%v sched=%v graph=%v",
-			c.Cut, c.CancelAt, c.Mount, c.API, c.Root, res.Roots, c.K, c.Src, c.Dst, c.D0, c.Faults, c.PreCancel, c.Slow, c.Sched, g.Describe())
+		desc := fmt.Sprintf("nilcb=%q cut=%v cancelat=%d mounter=%v api=%s root=%d roots=%v K=%d %s->%s d0=%v faults=%v precancel=%v slow=%v sched=%v graph=%v",
+			c.NilCb, c.Cut, c.CancelAt, c.Mount, c.API, c.Root, res.Roots, c.K, c.Src, c.Dst, c.D0, c.Faults, c.PreCancel, c.Slow, c.Sched, g.Describe())
 		run.Count("stream=" + c.Stream)
 		run.Count("api=" + c.API)
 		run.Count("pair=" + c.Src + "->" + c.Dst)
@@ -1608,6 +1634,9 @@ func DriveF(run *common.Run, b FBudget) {
 		}
 		if c.Mount {
 			run.Count("dst-mounter")
+		}
+		if len(c.NilCb) == 5 {
+			run.Count("nil-callbacks")
 		}
 		if len(c.Cut) > 0 {
 			run.Count("nested-roots(FindPredecessors cut)")
